@@ -13,7 +13,8 @@ RULE = ('A transport provider hands out successive SimNet transports, each attac
         'generates sequences of 1-4 connection endings drawn from {server EOF, transport error, keepalive timeout '
         'through a server that went silent, explicit reconnect() while healthy}, with reconnect() called by the program, '
         'from on_close, or from on_keepalive_timeout, at generated moments relative to 0-4 pending interactions of all '
-        'models, plus requests issued while the reconnect is in progress; after every reconnect two probes (a '
+        'models, plus requests issued while the reconnect is in progress, a transport provider that takes 0-5 ticks and a '
+        'transport whose own connect() suspends for 1-3 ticks; after every reconnect two probes (a '
         'request-response and a generator-backed stream) are issued. Oracle per reconnect: close() was called on the old '
         'transport; every request pending on the old connection ended with an error; the first frame on the new transport '
         'is a fresh SETUP (exactly one); the first request on it uses stream id 1; respond-flagged KEEPALIVEs appear on it '
@@ -39,6 +40,8 @@ def cases(draw):
         endings.append({'kind': kind, 'pending': pending, 'ticks_before': draw(st.integers(0, 4)),
                         'during': draw(st.sampled_from([None, None, 'rr', 'rr2', 'rr3'])),
                         'provider_delay': draw(st.sampled_from([0, 0, 2, 5])),
+                        # the next transport's own connect() (a handshake) takes a few loop iterations
+                        'connect_suspend': draw(st.sampled_from([None, None, 1, 2, 3])),
                         'ticks_after': draw(st.integers(1, 5))})
     P = draw(st.sampled_from([100, 250, 500]))
     L = draw(st.sampled_from([1000, 1500, 3000]))
@@ -63,7 +66,10 @@ def build(case):
     P, L = case['P_ms'], case['L_ms']
     cfg = {'msg': case['msg'], 'frag': [case['frag'], case['frag']], 'rbuf': [64, 64], 'ka': P / 1000.0, 'life': L / 1000.0,
            'transports': len(case['endings']) + 1,
-           'provider_delay': [0] + [e.get('provider_delay', 0) for e in case['endings']]}
+           'provider_delay': [0] + [e.get('provider_delay', 0) for e in case['endings']],
+           # (not combined with requests issued during the reconnect: that schedule is the D13 finding of C16)
+           'connect': [None] + [['ticks', e['connect_suspend']] if e.get('connect_suspend') and not e.get('during') else None
+                                for e in case['endings']]}
     if case['mode'] == 'on_close':
         cfg['on_close_reconnect'] = True
     if case['mode'] == 'on_ka_timeout':
